@@ -9,6 +9,7 @@ import (
 	"context"
 	"encoding/json"
 	"fmt"
+	"io"
 	"os"
 	"path/filepath"
 	"regexp"
@@ -76,7 +77,9 @@ type env struct {
 	srcRef   ref.Ref
 	tgtRef   ref.Ref // zero when Tgt == default
 	tgtTag   string  // "" when the target is named by digest only
-	tmp      string
+	// staleDigest: the manifest the target tag named before the call ("" = the tag did not exist)
+	staleDigest string
+	tmp         string
 }
 
 func writeLayout(dir string, b *built) error {
@@ -147,11 +150,15 @@ func setup(c Case, b *built) (*env, error) {
 	e.tmp = tmp
 	ha := e.m.AddHost(hostA)
 	hb := e.m.AddHost(hostB)
-	ha.Feat = rm.Features{Referrers: c.RefAPI, MountGrant: true, TagDelete: true}
-	hb.Feat = rm.Features{Referrers: c.RefAPI2, TagDelete: true}
-	// base images always live on registry host A
+	feat := func(f FeatSpec, refAPI bool) rm.Features {
+		return rm.Features{Referrers: refAPI, MountGrant: f.MountGrant, AnonMountStatus: f.AnonMount, HeadNoDigest: f.HeadNoDigest,
+			LocStyle: f.LocStyle, TagDelete: f.TagDelete, ChunkMin: f.ChunkMin}
+	}
+	ha.Feat, hb.Feat = feat(c.FeatA, c.RefAPI), feat(c.FeatB, c.RefAPI2)
+	// base images live on a registry (another repository of host A, the source repository, or host B)
 	if c.Base != nil {
-		putRepo(ha.Repo(repoBase), b.BaseBlobs, b.BaseManifests, b.BaseTags)
+		bh, br := baseLoc(c)
+		putRepo(e.m.Hosts[bh].Repo(br), b.BaseBlobs, b.BaseManifests, b.BaseTags)
 	}
 	if c.Src == "layout" {
 		e.src = endpoint{Kind: "layout", Dir: filepath.Join(tmp, "src")}
@@ -208,13 +215,84 @@ func setup(c Case, b *built) (*env, error) {
 	if e.srcRef, err = e.src.ref(srcTag); err != nil {
 		return nil, err
 	}
+	switch c.SrcForm {
+	case "digest":
+		e.srcRef = e.srcRef.SetDigest(b.Top)
+	case "tag+digest":
+		e.srcRef = e.srcRef.AddDigest(b.Top)
+	}
 	if c.Tgt != "default" {
 		if e.tgtRef, err = e.tgt.ref(e.tgtTag); err != nil {
 			return nil, err
 		}
 	}
+	if c.Tgt == "replace" {
+		// regctl --replace: the target is the source reference as given
+		e.tgtRef = e.srcRef
+		if c.SrcForm != "" {
+			e.tgtTag = ""
+		}
+	}
+	// pre-existing target state
+	switch c.TgtPre {
+	case "stale-tag":
+		if e.tgtTag != "" {
+			if err := e.putStale(e.tgt, e.tgtTag); err != nil {
+				return nil, err
+			}
+			e.staleDigest = sha256Dig(staleBody)
+		}
+	case "stale-digest":
+		e.tgtRef = e.tgtRef.SetDigest(b.Top)
+	}
 	e.rc = rcutil.New(e.m, rcutil.Conf{})
 	return e, nil
+}
+
+var staleBody = []byte(`{"schemaVersion":2,"mediaType":"application/vnd.oci.image.manifest.v1+json","config":{"mediaType":"application/vnd.oci.empty.v1+json","digest":"sha256:44136fa355b3678a1146ad16f7e8649e94fb4fc21fe77e8310c060f61caaff8a","size":2,"data":"e30="},"layers":[{"mediaType":"application/vnd.oci.empty.v1+json","digest":"sha256:44136fa355b3678a1146ad16f7e8649e94fb4fc21fe77e8310c060f61caaff8a","size":2}],"annotations":{"stale":"yes"}}`)
+
+const emptyJSONDigest = "sha256:44136fa355b3678a1146ad16f7e8649e94fb4fc21fe77e8310c060f61caaff8a"
+
+// putStale makes tag name an unrelated (well-formed) manifest at the endpoint before the call.
+func (e *env) putStale(ep endpoint, tag string) error {
+	d := sha256Dig(staleBody)
+	if ep.Kind == "reg" {
+		r := ep.Host.Repo(ep.Repo)
+		r.Manifests[d] = &rm.Manifest{MediaType: mtOCIManifest, Body: staleBody}
+		r.Blobs[emptyJSONDigest] = []byte("{}")
+		r.Tags[tag] = d
+		return nil
+	}
+	// layout: create it if needed and append an index.json entry
+	if _, err := os.Stat(filepath.Join(ep.Dir, "index.json")); err != nil {
+		if err := os.MkdirAll(filepath.Join(ep.Dir, "blobs", "sha256"), 0o777); err != nil {
+			return err
+		}
+		if err := os.WriteFile(filepath.Join(ep.Dir, "oci-layout"), []byte(`{"imageLayoutVersion":"1.0.0"}`), 0o666); err != nil {
+			return err
+		}
+		if err := os.WriteFile(filepath.Join(ep.Dir, "index.json"), []byte(`{"schemaVersion":2,"mediaType":"`+mtOCIIndex+`","manifests":[]}`), 0o666); err != nil {
+			return err
+		}
+	}
+	for dg, data := range map[string][]byte{d: staleBody, emptyJSONDigest: []byte("{}")} {
+		if err := os.WriteFile(filepath.Join(ep.Dir, "blobs", "sha256", strings.TrimPrefix(dg, "sha256:")), data, 0o666); err != nil {
+			return err
+		}
+	}
+	ib, err := os.ReadFile(filepath.Join(ep.Dir, "index.json"))
+	if err != nil {
+		return err
+	}
+	var idx map[string]any
+	if err := json.Unmarshal(ib, &idx); err != nil {
+		return err
+	}
+	ms, _ := idx["manifests"].([]any)
+	ms = append(ms, map[string]any{"mediaType": mtOCIManifest, "digest": d, "size": len(staleBody), "annotations": map[string]string{"org.opencontainers.image.ref.name": tag}})
+	idx["manifests"] = ms
+	ob, _ := json.Marshal(idx)
+	return os.WriteFile(filepath.Join(ep.Dir, "index.json"), ob, 0o666)
 }
 
 func (e *env) close() { os.RemoveAll(e.tmp) }
@@ -243,9 +321,15 @@ func snap(v audit.View) snapshot {
 // ---- option interpretation ----
 
 func (e *env) baseRef(tag string) ref.Ref {
-	r, _ := ref.New(hostA + "/" + repoBase + ":" + tag)
+	bh, br := baseLoc(e.c)
+	r, _ := ref.New(bh + "/" + br + ":" + tag)
 	return r
 }
+
+// streamReader hides Seek (what regctl hands over for --layer-add dir=...: a pipe).
+type streamReader struct{ r io.Reader }
+
+func (s streamReader) Read(p []byte) (int, error) { return s.r.Read(p) }
 
 func (e *env) optTime(o OptSpec) mod.OptTime {
 	ot := mod.OptTime{FromLabel: o.FromLabel, BaseLayers: o.BaseLayers}
@@ -258,13 +342,16 @@ func (e *env) optTime(o OptSpec) mod.OptTime {
 	if o.BaseRef {
 		ot.BaseRef = e.baseRef("old")
 	}
+	if o.BaseSelf {
+		ot.BaseRef = e.srcRef
+	}
 	return ot
 }
 
 var compTypes = map[string]archive.CompressType{"none": archive.CompressNone, "gzip": archive.CompressGzip, "zstd": archive.CompressZstd}
 
 // modOpts interprets the program (fresh readers on every call).
-func (e *env) modOpts(prog []OptSpec) ([]mod.Opts, error) {
+func (e *env) modOpts(prog []OptSpec, withTgt bool) ([]mod.Opts, error) {
 	var out []mod.Opts
 	for _, o := range prog {
 		switch o.Kind {
@@ -341,7 +428,11 @@ func (e *env) modOpts(prog []OptSpec) ([]mod.Opts, error) {
 				}
 				plats = append(plats, p)
 			}
-			out = append(out, mod.WithLayerAddTar(bytes.NewReader(tarBytes(o.Layer.Files)), o.MT, plats))
+			var rdr io.Reader = bytes.NewReader(tarBytes(o.Layer.Files))
+			if o.Stream {
+				rdr = streamReader{r: rdr}
+			}
+			out = append(out, mod.WithLayerAddTar(rdr, o.MT, plats))
 		case "layer-compress":
 			out = append(out, mod.WithLayerCompression(compTypes[o.Algo]))
 		case "layer-reproducible":
@@ -380,7 +471,7 @@ func (e *env) modOpts(prog []OptSpec) ([]mod.Opts, error) {
 			return nil, fmt.Errorf("unknown option kind %q", o.Kind)
 		}
 	}
-	if e.c.Tgt != "default" {
+	if e.c.Tgt != "default" && withTgt {
 		out = append(out, mod.WithRefTgt(e.tgtRef))
 	}
 	return out, nil
@@ -395,19 +486,17 @@ type applyResult struct {
 	TimedOut bool
 }
 
-var frameRE = regexp.MustCompile(`github\.com/regclient/regclient/([A-Za-z0-9_./]+)\.([A-Za-z0-9_.()*]+)`)
+var frameRE = regexp.MustCompile(`/(mod|types|scheme|internal|pkg)/([A-Za-z0-9_./-]+\.go):([0-9]+)`)
 
+// panicFrame names the innermost regclient source line of a panic stack
+// (file:line below the module root; harness frames are skipped).
 func panicFrame(stack string) string {
 	for _, line := range strings.Split(stack, "\n") {
-		if strings.Contains(line, "zz_verif") || strings.HasPrefix(line, "\t") {
+		if !strings.HasPrefix(line, "\t") || strings.Contains(line, "zz_verif") || strings.Contains(line, "/runtime/") {
 			continue
 		}
 		if m := frameRE.FindStringSubmatch(line); m != nil {
-			fn := m[2]
-			if i := strings.Index(fn, ".func"); i > 0 {
-				fn = fn[:i]
-			}
-			return m[1] + "." + fn
+			return m[1] + "/" + m[2] + ":" + m[3]
 		}
 	}
 	return "unknown"
@@ -415,14 +504,33 @@ func panicFrame(stack string) string {
 
 const applyWatchdog = 120 * time.Second
 
-// apply runs mod.Apply with the given program under a watchdog.
+// apply runs mod.Apply on the source with the given program under a watchdog
+// (and the case's context plan).
 func (e *env) apply(prog []OptSpec) applyResult {
-	opts, err := e.modOpts(prog)
+	return e.applyRef(e.srcRef, prog, true, e.c.CancelAt)
+}
+
+// applyRef runs mod.Apply on src. cancelAt > 0 cancels the context when the k-th
+// request (counted from this call) arrives at the model; -1 cancels it before the call.
+func (e *env) applyRef(src ref.Ref, prog []OptSpec, withTgt bool, cancelAt int) applyResult {
+	opts, err := e.modOpts(prog, withTgt)
 	if err != nil {
 		return applyResult{Err: fmt.Errorf("harness: %w", err)}
 	}
 	ctx, cancel := context.WithTimeout(context.Background(), applyWatchdog-10*time.Second)
 	defer cancel()
+	if cancelAt < 0 {
+		cancel()
+	}
+	if cancelAt > 0 {
+		base := e.m.Requests()
+		e.m.OnArrive = func(en *rm.Entry) {
+			if en.Seq-base+1 >= cancelAt {
+				cancel()
+			}
+		}
+		defer func() { e.m.OnArrive = nil }()
+	}
 	done := make(chan applyResult, 1)
 	go func() {
 		var res applyResult
@@ -434,7 +542,7 @@ func (e *env) apply(prog []OptSpec) applyResult {
 			}
 			done <- res
 		}()
-		res.Ref, res.Err = mod.Apply(ctx, e.rc, e.srcRef, opts...)
+		res.Ref, res.Err = mod.Apply(ctx, e.rc, src, opts...)
 	}()
 	select {
 	case res := <-done:
